@@ -34,7 +34,7 @@ Proof. exact trace_value_shape_lemma. Qed.
 Print Assumptions trace_value_shape.
 
 (* THE GENERAL THEOREM — unbounded, every shape of the model: for EVERY spec built from leaves, dict specs, tuple chains, Coalesce
-   (with skipped values, with and without a default that recovers), Or, Switch, Not and Check-style guards — any nesting depth, any number of children, every success / failure
+   (with skipped values, with and without a default that recovers), Or, Switch, Not, And and Check-style guards — any nesting depth, any number of children, every success / failure
    pattern — whose occurrences are numbered apart below 1000 (so that different errors are different numbers, as they are different
    objects in glom), the outcome and the trace the breadcrumb machine renders ARE the structural reading of Spec/TraceSpec.v:
    the spec at every level from the root down to the innermost spec that failed, each with the target it received; for a chain the
@@ -99,4 +99,13 @@ Proof. vm_compute. reflexivity. Qed.
 Example ex_not_refuses :
   run (Alt 1 [NotS 2 (Leaf 3 true); Leaf 4 false])
   = (Exc 5001, [TR 1 7 (Some 5001) [[TR 2 7 (Some 6002) []]; [TR 4 7 (Some 4) []]]]).
+Proof. vm_compute. reflexivity. Qed.
+(* And: children on the same target, the first failure propagates (the And's frame above it), the value is the last child's *)
+Example ex_and_fails :
+  run (Chain 1 [AndS 2 [Leaf 3 true; Leaf 4 false; Leaf 5 false]; Leaf 6 true])
+  = (Exc 4, [TR 1 7 None []; TR 2 7 None []; TR 4 7 (Some 4) []]).
+Proof. vm_compute. reflexivity. Qed.
+Example ex_and_value :
+  run (Chain 1 [AndS 2 [Leaf 3 true; Leaf 4 true]; Leaf 5 false])
+  = (Exc 5, [TR 1 7 None []; TR 2 7 None []; TR 5 2004 (Some 5) []]).
 Proof. vm_compute. reflexivity. Qed.
